@@ -418,7 +418,32 @@ def gen_shared(rng, tier):
 
 
 MAPPED_NAMES = ["first_tags", "top_score", "my_level", "key_map", "opt_val", "old_ids"]
-MAPPER_MODES = ["class-ser", "class-deser", "lower", "camel", "override", "camelflag"]
+MAPPER_MODES = ["class-ser", "class-deser", "lower", "camel", "override", "camelflag", "none"]
+
+
+def other_settings(rng, mode, names, keymap, valid_kw):
+    """histories for a judged deserialization: the same class object deserialized earlier (valid document)
+    under the OTHER setting of each flag — camel_case_convert, mapper override, keep_undefined, fail-fast"""
+    cam = sorted((n, camel(n)) for n in names)
+    ovr = sorted((n, "prev_" + n) for n in names)
+    base_map = sorted(keymap.items()) if mode not in ("override", "camelflag", "none") else []
+    pres = [[]]
+    if mode == "camelflag":
+        pres.append([{"op": "deser", "kw": valid_kw, "setting": {"camel": False, "map": []}}])
+        pres.append([{"op": "deser", "kw": valid_kw, "setting": {"override": True, "map": ovr}}])
+    elif mode == "override":
+        pres.append([{"op": "deser", "kw": valid_kw, "setting": {"override": False, "map": []}}])
+        pres.append([{"op": "deser", "kw": valid_kw, "setting": {"camel": True, "map": cam}}])
+    elif mode == "none":
+        pres.append([{"op": "deser", "kw": valid_kw, "setting": {"camel": True, "map": cam}}])
+        pres.append([{"op": "deser", "kw": valid_kw, "setting": {"override": True, "map": ovr}}])
+    # flags that do not change the keys: the other fail-fast mode, the other keep_undefined
+    pres.append([{"op": "deser", "kw": valid_kw,
+                  "setting": {"map": base_map, "camel": mode == "camelflag", "override": mode == "override",
+                              "ff": rng.random() < 0.5, "keep_undefined": rng.choice([True, False])}}])
+    if mode in ("override", "camelflag"):
+        pres[-1][0]["setting"]["map"] = sorted(keymap.items())
+    return pres
 
 
 def gen_mapped(rng, tier):
@@ -481,11 +506,17 @@ def gen_mapped(rng, tier):
                             kw[nm] = v
                             ways.append(way)
                     kwl = [[k, v] for k, v in kw.items()]
-                    for entry in ("Deserializer", "deserialize_structure"):
-                        for ff in (True, False):
-                            cases.append({"suite": "errors", "cls": cls, "kw": kwl, "mode": "nested" if nested else "deser",
-                                          "ff": ff, "entry": entry, "mapper": mp, "valid_kw": valid_kw, "sub": sub,
-                                          "ways": ways + ["mapper:" + mode], "re": gen.re_table(cls, kwl, valid_kw)})
+                    pres = other_settings(rng, mode, names, keymap, valid_kw)
+                    for pi, pre in enumerate(pres):
+                        if pi and nested and rng.random() < 0.5:
+                            continue
+                        entry = rng.choice(["Deserializer", "deserialize_structure"]) if pi else None
+                        for entry in ([entry] if entry else ["Deserializer", "deserialize_structure"]):
+                            for ff in (True, False):
+                                cases.append({"suite": "errors", "cls": cls, "kw": kwl, "mode": "nested" if nested else "deser",
+                                              "ff": ff, "entry": entry, "mapper": mp, "valid_kw": valid_kw, "sub": sub, "pre": pre,
+                                              "ways": ways + ["mapper:" + mode] + (["flag-history"] if pre else []),
+                                              "re": gen.re_table(cls, kwl, valid_kw)})
     return cases
 
 
@@ -598,6 +629,24 @@ def run_history(cls, pre, ctx):
         try:
             if op["op"] == "construct":
                 cls(**{k: dump.load_value(v, ctx) for k, v in op["kw"]})
+            elif op.get("setting") is not None:
+                # an earlier deserialization of the SAME class object under another setting of the flags
+                st = op["setting"]
+                keymap = dict(st.get("map") or [])
+                kwargs = {}
+                if st.get("camel"):
+                    kwargs["camel_case_convert"] = True
+                if st.get("override"):
+                    kwargs["mapper"] = keymap
+                doc = {keymap.get(k, k): to_doc(v, ctx) for k, v in op["kw"]}
+                Structure.set_fail_fast(bool(st.get("ff", True)))
+                try:
+                    if st.get("keep_undefined") is None:
+                        Deserializer(cls, **kwargs).deserialize(doc)
+                    else:
+                        Deserializer(cls, **kwargs).deserialize(doc, keep_undefined=st["keep_undefined"])
+                finally:
+                    Structure.set_fail_fast(True)
             else:
                 Deserializer(cls).deserialize({k: to_doc(v, ctx) for k, v in op["kw"]})
             out.append(op["op"] + ":ok")
@@ -617,6 +666,8 @@ def mapper_keys(mode, names, rng):
         return {n: n.upper() for n in names}
     if mode in ("camel", "camelflag"):
         return {n: camel(n) for n in names}
+    if mode == "none":
+        return {}
     tmpl = rng.choice(["doc_{}", "{}Key", "the{}", "x{}_in"])
     return {n: tmpl.format(n) for n in names if rng.random() < 0.85}
 
@@ -638,6 +689,8 @@ def apply_mapper(cls, mp):
         return cls, {"mapper": keymap}
     if mode == "camelflag":
         return cls, {"camel_case_convert": True}
+    if mode == "none":
+        return cls, {}
     raise ValueError(mode)
 
 
@@ -675,7 +728,7 @@ def run_impl(case):
     deser_kwargs = {}
     if mp:
         cls, deser_kwargs = apply_mapper(cls, mp)
-    history = run_history(cls, case.get("pre", []), ctx) if not mp else []
+    history = run_history(cls, case.get("pre", []), ctx)
     try:
         if mode == "construct":
             kw = {k: dump.load_value(v, ctx) for k, v in case["kw"]}
@@ -703,7 +756,11 @@ def run_impl(case):
     if mp and mode != "construct":
         res["mapper"] = [[k, v] for k, v in keymap.items()]
         res["raw_doc_actual"] = [[keymap.get(k, k), dump.dump_value(v, ctx)] for k, v in kw.items()]
-        ok = mapper_sanity(cls, mp, deser_kwargs, case, ctx)
+        # on a separately built twin class, so that the check itself is not part of the judged
+        # class object's history
+        ctx2 = C.make_ctx()
+        twin, twin_kwargs = apply_mapper(dump.build_class(decl, ctx2), mp)
+        ok = mapper_sanity(twin, mp, twin_kwargs, case, ctx2)
         if ok is not None:
             return {"unbuildable": "mapper: " + ok}
     ff = bool(case["ff"])
@@ -981,9 +1038,18 @@ def oracle(case, impl, model):
     raised, msg, helper = impl.get("raised"), impl.get("msg"), impl.get("helper")
     if impl.get("ff_after") is not None and impl["ff_after"] != ff:
         fails.append(("fail-fast-switch-changed", "Structure.failing_fast() changed during the run"))
-    if raised is None:
-        return fails
     where = f"{mode} ff={ff} kw={json.dumps(case['kw'], ensure_ascii=False)[:200]}"
+    if case.get("pre"):
+        where += f" after {json.dumps(case['pre'], ensure_ascii=False)[:160]}"
+    if case.get("mapper"):
+        where += f" mapper={case['mapper']['mode']}"
+    if raised is None:
+        # an invalid input must be rejected (modelled, flat cases; the invalid set comes from Lean `validate`)
+        if mode in ("construct", "deser") and model.get("flat") and model.get("invalid") and "raised" in impl \
+                and model.get("kind") != "bind":
+            fails.append(("invalid-input-accepted",
+                          f"supplied fields {model['invalid']} are invalid but nothing was raised [{where}]"))
+        return fails
     # (1) the helpers never raise (all modes, nested included)
     if helper is not None and "raises" in helper:
         fails.append((f"helper-raises:{helper['raises']}",
